@@ -1,18 +1,13 @@
 /-
-Multiplexer world: the step theorem assembled from the per-operation files.
+Multiplexer world: the step theorem assembled from the per-operation files, and its
+consequences for reachable worlds.
 -/
-import Acme.Proofs.MuxClear
+import Acme.Proofs.MuxClearAll
 
 namespace Acme.Mux
 open Acme.Layout Acme.Arith
 
-/-- the operations whose preservation proof is complete -/
-def Proved : Op → Bool
-  | .muxClearAll _ => false
-  | .leafSize _ _ => false
-  | _ => true
-
-theorem invCore_step_partial (w : MW) (op : Op) (h : InvCore w) (hp : Proved op = true) (hok : OpOK w op) :
+theorem invCore_step (w : MW) (op : Op) (h : InvCore w) (hok : OpOK w op) :
     InvCore (step w op).1 ∧ (step w op).2 ≠ .panic := by
   cases op with
   | sigLeaf s name size =>
@@ -34,10 +29,30 @@ theorem invCore_step_partial (w : MW) (op : Op) (h : InvCore w) (hp : Proved op 
   | muxIns x s st gids => exact inv_muxIns w h x s st gids hok.1 hok.2
   | muxRm x s => exact inv_muxRm w h x s
   | muxClear x g => exact inv_muxClear w h x g
-  | muxClearAll x => simp [Proved] at hp
+  | muxClearAll x => exact inv_muxClearAll w h x
   | muxShl x s a => exact inv_muxShift w h true x s a hok.1
   | muxShr x s a => exact inv_muxShift w h false x s a hok.1
-  | leafSize s n => simp [Proved] at hp
+  | leafSize s n => exact inv_leafSize w h s n hok.2
   | sigName s name => exact inv_sigName w h s name
+
+theorem invCore_init : InvCore ({} : MW) := by
+  apply InvCore.of_parts
+  · intro x xe gc gs hx; simp [AMap_get_empty] at hx
+  · intro m msg hm; simp [AMap_get_empty] at hm
+  · intro s e hs; simp [AMap_get_empty] at hs
+  · exact ⟨fun _ => 0, fun s e x hs => by simp [AMap_get_empty] at hs⟩
+
+theorem inv_step (w : MW) (op : Op) (h : Inv w) (hok : OpOK w op) : Inv (step w op).1 :=
+  inv_of_core _ (invCore_step w op h.toInvCore hok).1
+
+theorem reach_invCore (w : MW) (h : Reach w) : InvCore w := by
+  induction h with
+  | init => exact invCore_init
+  | step w op _ hok ih => exact (invCore_step w op ih hok).1
+
+theorem reach_inv (w : MW) (h : Reach w) : Inv w := inv_of_core w (reach_invCore w h)
+
+theorem step_nopanic (w : MW) (h : Reach w) (op : Op) (hok : OpOK w op) : (step w op).2 ≠ .panic :=
+  (invCore_step w op (reach_invCore w h) hok).2
 
 end Acme.Mux
